@@ -1445,6 +1445,124 @@ Section TicketRoundTrip.
   Qed.
 End TicketRoundTrip.
 
+(* ================================================================== invalidation of SHARED entries, every kind of event *)
+(* The events that invalidate a cached session, on a connection k that holds a reference on its entry
+   (whatever the reference count of the entry is - other connections may share it and stay open):
+     OAlert k                     the server writes a fatal alert (sslEncodeResponse -> matrixClearSession(remove))
+     OUpd k / ODel k with ERROR   SSL_FLAGS_ERROR is set - fatal alert RECEIVED or local error - when
+                                  matrixUpdateSession runs (at once, or from matrixSslDeleteSession) *)
+Definition holds_entry (c : conn) : Prop :=
+  c_server c = true /\ 0 < c_sidlen c /\ 0 < c_ref c <= k_SSL_SESSION_TABLE_SIZE.
+
+Definition invalidating (o : op) (k : nat) (c : conn) : Prop :=
+  o = OAlert k \/ ((o = OUpd k \/ o = ODel k) /\ c_error c = true).
+
+Lemma dead_entry_abs : forall st st' n, TInv st -> (n < TBL)%nat ->
+  e_cipher (get st' n) = None -> abs st' (e_id (get st n)) = None.
+Proof.
+  intros st st' n T Hn D. destruct (I_id _ T n Hn) as [Hs Hl].
+  unfold abs. rewrite Hl, Nat.eqb_refl, Hs, Nat2Z.id.
+  destruct (_ && _); auto. destruct (beq _ _); auto. rewrite D. reflexivity.
+Qed.
+
+Lemma update_error_dead : forall c st rc c' st', TInv st -> holds_entry c -> c_error c = true ->
+  update c st = (rc, c', st') -> e_cipher (get st' (Z.to_nat (c_ref c - 1))) = None.
+Proof.
+  intros c st rc c' st' T [Hsrv [Hlen [Hr0 Hr1]]] He E. unfold update in E.
+  rewrite Hsrv in E. cbn [negb] in E.
+  assert (E1 : (c_sidlen c =? 0) = false) by (apply Z.eqb_neq; lia).
+  assert (E2 : (c_ref c =? 0) = false) by (apply Z.eqb_neq; lia).
+  assert (E3 : (c_ref c - 1 >=? k_SSL_SESSION_TABLE_SIZE) = false) by (destruct (Z.geb_spec (c_ref c - 1) k_SSL_SESSION_TABLE_SIZE); auto; lia).
+  rewrite E1, E2, E3 in E. cbn [orb] in E.
+  set (n := Z.to_nat (c_ref c - 1)) in *.
+  assert (Hn : (n < TBL)%nat) by (apply to_nat_lt_TBL; lia).
+  assert (L : forall st1 c1, (if c_closed c then (c_set_ref c 0, release st n) else (c, st)) = (c1, st1) ->
+              length (s_tbl st1) = length (s_tbl st)).
+  { intros st1 c1 Q. destruct (c_closed c); injection Q as <- <-; auto. destruct (release_misc st n) as [_ [_ L]]. auto. }
+  destruct (if c_closed c then (c_set_ref c 0, release st n) else (c, st)) as [c1 st1] eqn:Q.
+  specialize (L st1 c1 eq_refl). rewrite He in E. injection E as <- <- <-.
+  rewrite get_put_same by (rewrite L, (I_len _ T); auto). reflexivity.
+Qed.
+
+Lemma clear_remove_holder_dead : forall c st rc c' st', TInv st -> holds_entry c ->
+  clear c true st = (rc, c', st') -> e_cipher (get st' (Z.to_nat (c_ref c - 1))) = None.
+Proof.
+  intros c st rc c' st' T [Hsrv [Hlen [Hr0 Hr1]]] E.
+  apply (clear_remove_dead c st rc c' st' T E).
+  unfold clear in E.
+  assert (E1 : (c_sidlen c <=? 0) = false) by (apply Z.leb_gt; lia).
+  assert (E2 : (c_ref c =? 0) = false) by (apply Z.eqb_neq; lia).
+  assert (E3 : (c_ref c - 1 >=? k_SSL_SESSION_TABLE_SIZE) = false) by (destruct (Z.geb_spec (c_ref c - 1) k_SSL_SESSION_TABLE_SIZE); auto; lia).
+  rewrite E1, E2, E3 in E. injection E as <- _ _. reflexivity.
+Qed.
+
+(* one invalidating step kills the entry the connection holds, whoever else shares it *)
+Lemma invalidating_step_kills : forall o k cs st rc cs' st', Inv cs st -> (k < length cs)%nat ->
+  holds_entry (getc cs k) -> invalidating o k (getc cs k) -> step o cs st = (rc, cs', st') ->
+  abs st' (e_id (get st (Z.to_nat (c_ref (getc cs k) - 1)))) = None.
+Proof.
+  intros o k cs st rc cs' st' HI Hk Hh Hinv Hs. pose proof HI as [T _].
+  pose proof Hh as [Hsrv [Hlen [Hr0 Hr1]]].
+  assert (Hn : (Z.to_nat (c_ref (getc cs k) - 1) < TBL)%nat) by (apply to_nat_lt_TBL; lia).
+  apply dead_entry_abs; auto.
+  assert (Lk : Nat.ltb k (length cs) = true) by (apply Nat.ltb_lt; auto).
+  destruct Hinv as [->|[[->| ->] He]]; cbn [step] in Hs; unfold lift in Hs; rewrite Lk in Hs.
+  - (* fatal alert sent *)
+    destruct (fatal_alert (getc cs k) st) as [[rc1 c1] st1] eqn:E. injection Hs as <- <- <-.
+    unfold fatal_alert in E. set (c0 := c_set_flags (getc cs k) (c_closed (getc cs k)) true (c_resumed (getc cs k))) in *.
+    change (c_server c0) with (c_server (getc cs k)) in E. rewrite Hsrv in E.
+    apply (clear_remove_holder_dead c0 st rc1 c1 st1 T); auto.
+  - (* error flag seen by matrixUpdateSession *)
+    destruct (update (getc cs k) st) as [[rc1 c1] st1] eqn:E. injection Hs as <- <- <-.
+    apply (update_error_dead (getc cs k) st rc1 c1 st1 T); auto.
+  - (* error flag at matrixSslDeleteSession *)
+    destruct (delete_session (getc cs k) st) as [[rc1 c1] st1] eqn:E. injection Hs as <- <- <-.
+    unfold delete_session in E. set (c0 := c_set_flags (getc cs k) true (c_error (getc cs k)) (c_resumed (getc cs k))) in *.
+    assert (G : (c_sidlen c0 >? 0) && c_server c0 = true).
+    { change (c_sidlen c0) with (c_sidlen (getc cs k)). change (c_server c0) with (c_server (getc cs k)). rewrite Hsrv.
+      destruct (Z.gtb_spec (c_sidlen (getc cs k)) 0); auto. lia. }
+    rewrite G in E. destruct (update c0 st) as [[rc2 c2] st2] eqn:EU. injection E as <- <- <-.
+    apply (update_error_dead c0 st rc2 c2 st2 T); auto.
+Qed.
+
+(* ... for good: over ANY later interleaving of operations of any connections (the sharers included), nobody
+   presenting that identifier is resumed, unless the server issues the very same identifier again *)
+Theorem invalidation_shared : forall o k cs st rc cs' st' ops cs1 st1 c,
+  Inv cs st -> (k < length cs)%nat ->
+  holds_entry (getc cs k) -> invalidating o k (getc cs k) -> step o cs st = (rc, cs', st') ->
+  let id0 := e_id (get st (Z.to_nat (c_ref (getc cs k) - 1))) in
+  run ops cs' st' = (cs1, st1) ->
+  ~ issued_during ops cs' st' id0 ->
+  wf_conn c -> c_server c = true -> presented c = id0 ->
+  forall rc1 c1' st1', resume c st1 = (rc1, c1', st1') -> rc1 < 0 /\ c1' = c /\ st1' = st1.
+Proof.
+  intros o k cs st rc cs' st' ops cs1 st1 c HI Hk Hh Hinv Hs id0 Hrun Hni W Hsrv Hp rc1 c1' st1' Er.
+  assert (HI' : Inv cs' st') by (eapply step_inv; eauto).
+  assert (HI1 : Inv cs1 st1) by (eapply run_inv; eauto).
+  assert (Dead : abs st1 id0 = None).
+  { destruct (abs st1 id0) eqn:A; auto. exfalso.
+    destruct (run_abs_mono ops _ st' cs1 st1 id0 HI' Hrun) as [H|H]; [rewrite A; discriminate | | contradiction].
+    apply H. eapply invalidating_step_kills; eauto. }
+  destruct HI1 as [T1 _].
+  destruct (resume_refines_inv c st1 T1 W Hsrv rc1 c1' st1' Er) as [[_ S]|[Hneg [_ [-> ->]]]]; auto.
+  exfalso. unfold spec_resume, hello_of in S. cbn [h_id] in S. rewrite Hp, Dead in S. discriminate.
+Qed.
+
+(* non-vacuity with a reference count of 2 and 3: A registers, B (and C) resume; B receives a fatal alert and is
+   deleted while A (and C) stay open: in-use count 1 (2) remains, the id no longer resumes - now, after the
+   others closed, and after further traffic *)
+Example shared_entry_invalidated :
+  let idA := le32 0 ++ repeat 17%N 28 in
+  let setup := [ONew 0 cA; OReg 0; OUpd 0; ONew 1 cB; OSid 1 idA 32; OChr 1; ONew 2 cB; OSid 2 idA 32; OChr 2] in
+  let '(cs, st) := run setup [] (init_state 1000000) in
+  e_inuse (get st 0) = 3 /\ holds_entry (getc cs 1) /\ abs st idA <> None /\
+  let '(cs', st') := run [OFlag 1 false true true; ODel 1] cs st in
+  e_inuse (get st' 0) = 2 /\
+  let probe := c_set_sid cB idA 32 in
+  fst (fst (resume probe st')) = k_PS_LIMIT_FAIL /\
+  fst (fst (resume probe (snd (run [ODel 0; ODel 2; OTick 5] cs' st')))) = k_PS_LIMIT_FAIL.
+Proof. vm_compute. repeat split; auto; try discriminate; lia. Qed.
+
 (* ================================================================== statements as exported by Properties_C14.v *)
 Theorem cache_invariant_all : forall ops now cs0 cs st,
   fresh_conns cs0 -> run ops cs0 (init_state now) = (cs, st) ->
@@ -1509,3 +1627,43 @@ Theorem rotation_both : forall dec mac avail,
      NoDup (map k_name (s_keys st)) -> key_del name st = (rc, st') -> rc = k_PS_SUCCESS ->
      firstn 16 tk = name -> fst (ticket_unlock dec mac avail c tk st') = k_PS_FAILURE).
 Proof. intros dec mac avail. split; [exact rotation_add | exact (rotation_del dec mac avail)]. Qed.
+
+(* ================================================================== TLS 1.3 ticket parameters *)
+(* tls13ValidateSessionParams accepts decrypted ticket parameters iff version and suite are the negotiated ones
+   and the sealed issue time is not in the future and at most the sealed lifetime ago (lifetimes below the
+   saturation point of psDiffMsecs, 24.8 days; RFC 8446 allows at most 7 days) *)
+Theorem tls13_validate_spec : forall c suite p st,
+  c_server c = true -> 0 <= p_life p < 2147483 ->
+  (fst (tls13_validate c suite p st) = k_PS_SUCCESS <->
+   p_maj p = c_maj c /\ p_min p = c_min c /\ p_cipher p = suite /\
+   0 <= s_now st - p_stamp p /\ (s_now st - p_stamp p) / 1000 <= p_life p).
+Proof.
+  intros c suite p st Hsrv Hl. unfold tls13_validate. rewrite Hsrv.
+  destruct (Z.eqb_spec (p_maj p) (c_maj c)); destruct (Z.eqb_spec (p_min p) (c_min c)); cbn [andb negb fst];
+    try (split; [intro HH; discriminate HH | intros [A [B _]]; contradiction]).
+  destruct (Z.eqb_spec (p_cipher p) suite); cbn [negb fst]; [|split; [intro HH; discriminate HH | intros [_ [_ [A _]]]; contradiction]].
+  unfold diff_msecs. set (d := s_now st - p_stamp p).
+  Ltac Zify.zify_post_hook ::= Z.div_mod_to_equations.
+  destruct (Z.gtb_spec d 2147483647).
+  - change (2147483647 <? 0) with false. change (2147483647 / 1000) with 2147483. cbn [orb].
+    change (2147483 mod 4294967296) with 2147483.
+    destruct (Z.gtb_spec 2147483 (p_life p)); cbn [fst]; [|lia].
+    split; [intro HH; discriminate HH | intros [_ [_ [_ [A B]]]]; lia].
+  - destruct (Z.ltb_spec d (-2147483647)).
+    + change (-2147483647 <? 0) with true. cbn [orb fst]. split; [intro HH; discriminate HH | intros [_ [_ [_ [A B]]]]; lia].
+    + destruct (Z.ltb_spec d 0); cbn [orb fst]; [split; [intro HH; discriminate HH | intros [_ [_ [_ [A B]]]]; lia]|].
+      assert (M : (d / 1000) mod 4294967296 = d / 1000) by (apply Z.mod_small; lia). rewrite M.
+      destruct (Z.gtb_spec (d / 1000) (p_life p)); cbn [fst]; split; auto; try (intro HH; discriminate HH); try (intros [_ [_ [_ [A B]]]]; lia).
+Qed.
+
+(* a ticket issued by this server (parameters as tls13WriteNewSessionTicket seals them) is honoured exactly for
+   TLS_1_3_TICKET_LIFETIME seconds, for the same version and suite *)
+Theorem tls13_ticket_lifetime : forall c0 c1 suite0 suite1 st0 st1,
+  c_server c1 = true ->
+  (fst (tls13_validate c1 suite1 (tls13_issue c0 suite0 st0) st1) = k_PS_SUCCESS <->
+   c_maj c0 = c_maj c1 /\ c_min c0 = c_min c1 /\ suite0 = suite1 /\
+   0 <= s_now st1 - s_now st0 /\ (s_now st1 - s_now st0) / 1000 <= k_TLS_1_3_TICKET_LIFETIME).
+Proof.
+  intros. apply (tls13_validate_spec c1 suite1 (tls13_issue c0 suite0 st0) st1); auto.
+  cbn. vm_compute. split; [discriminate | reflexivity].
+Qed.
